@@ -184,9 +184,9 @@ func (t *QuicTransport) getConn(ctx context.Context) (_ quic.Connection, newConn
 	}
 
 	if t.c != nil {
-		if !ctxIsDone(t.c.Context()) {
+		if c := t.c; !ctxIsDone(c.Context()) {
 			t.m.Unlock()
-			return t.c, false, nil
+			return c, false, nil
 		}
 		// dead conn
 		t.c = nil
